@@ -691,8 +691,8 @@ pub fn spec() -> PropSpec {
             Family { name: "keep-alive", f: fam_keepalive, weight: 10 },
             Family { name: "server-restart", f: fam_restart, weight: 15 },
         ],
-        quick_worlds: 90_000,
-        thorough_worlds: 1_350_000,
+        quick_worlds: 160_000,
+        thorough_worlds: 2_700_000,
         panic_is_violation: false,
         rule: "each world = a workload terminated by application close(s) at a chosen instant (optionally with a large burst queued first), by a peer crash after a chosen prefix, by a server restart (stateless reset), or left running under keep-alive; datagrams are replayed at drained connections; non-trivial = a fault/termination fired; distinct = distinct abstract-event signature",
         assumptions: vec![
